@@ -231,7 +231,9 @@ def parse_current(text):
         return {"cstep": int(cur["cstep"]), "rf": cur.get("restarted_from"),
                 "active": [int(a) for a in cur["active"]], "traj_num": int(cur["traj_num"]),
                 "steps": int(cfg["simulation"]["steps"]),
-                "locked": [([int(e) for e in l[0]], [int(p) for p in l[1]]) for l in cur.get("locked", [])]}
+                "locked": [([int(e) for e in l[0]], [int(p) for p in l[1]]) for l in cur.get("locked", [])],
+                # since 147c104 an entry is a triple: the third item is the ordinal of the job's random stream
+                "ordinals": [(int(l[2]) if len(l) > 2 else None) for l in cur.get("locked", [])]}
     except Exception:  # noqa: BLE001
         return None
 
@@ -295,6 +297,7 @@ class Segment:
         self.label = label
         self.case_filter = None
         self.pre_clean = None
+        self.after_points = True
         self.n = spec["nintf"] + 1
         self.steps = []
         self.variant = None
@@ -335,6 +338,24 @@ class Segment:
                               f"{mm['in_flight']} are in flight (process life {self.label}, after {len(self.chain)} crash(es))",
                               {"spec": self.spec, "chain": self.chain, "completion": self.completion, "check": "inflight", **mm})
                 break
+        # a job re-issued after the restart keeps the stream ordinal recorded for it (147c104)
+        if isinstance(self.start_rec, dict):
+            want = {(tuple(l[0]), tuple(l[1])): o for l, o in zip(self.start_rec["locked"], self.start_rec.get("ordinals", []))
+                    if o is not None}
+            done = False
+            for st in self.steps:
+                rec = st.get("rec") or {}
+                for l, o in zip(rec.get("locked", []), rec.get("ordinals", [])):
+                    key = (tuple(l[0]), tuple(l[1]))
+                    if key in want and o is not None and o != want[key] and not done:
+                        done = True
+                        self.ctx.fail("C08:reissued-job-lost-its-stream-ordinal",
+                                      f"job {key} was recorded in flight with stream ordinal {want[key]}; after the restart "
+                                      f"the record of step {rec.get('cstep')} lists it with ordinal {o}",
+                                      {"spec": self.spec, "chain": self.chain, "check": "ordinal"})
+                for key in list(want):
+                    if key not in {(tuple(l[0]), tuple(l[1])) for l in rec.get("locked", [])}:
+                        want.pop(key)      # finished: a later job with the same ensemble/path is a new one
         return True
 
     def split_steps(self):
@@ -367,7 +388,8 @@ class Segment:
                 v = "asIs"
             elif (len(evs) == 2 and evs[0]["op"] == "open-w" and evs[1]["op"] == "move"
                   and evs[1]["path"] == evs[0]["path"] and evs[1]["dest"] == "restart.toml"):
-                v = "repaired"
+                # renamed while the temp file is still open = its content is still in the write buffer
+                v = "renamedOpen" if evs[0]["path"] in evs[1].get("open_handles", []) else "repaired"
                 st["tmpname"] = evs[0]["path"]
             else:
                 v = "unknown"
@@ -433,7 +455,7 @@ class Segment:
         if not self.model_ok:
             return
         ctx, reg = self.ctx, self.reg
-        if self.variant not in ("asIs", "repaired"):
+        if self.variant not in ("asIs", "repaired", "renamedOpen"):
             ctx.disagree({"segment": self.label}, f"write_toml effect pattern {self.variant}",
                          "asIs: open-w restart.toml | repaired: open-w tmp, rename tmp restart.toml")
             self.model_ok = False
@@ -444,7 +466,7 @@ class Segment:
         pinfo = dict(self.model0["pinfo"])
         manifest = dict(self.model0["manifest"])
         cfg = f"{self.n} {1 if self.spec.get('delete_old') else 0} {1 if self.spec.get('delete_old_all') else 0} " \
-              f"{0 if self.variant == 'asIs' else 1} {1 if cleans_on_restart() else 0}"
+              f"{ {'asIs': 0, 'repaired': 1, 'renamedOpen': 2}[self.variant] } {1 if cleans_on_restart() else 0}"
         self.cfg = cfg
         for si, st in enumerate(self.steps):
             if st["rec"] is None or len(st["rows"]) != len(st["blocks"]):
@@ -604,6 +626,8 @@ class Segment:
             for m in modes:
                 if m == "before" or e["op"] in ("open-w", "open-a"):
                     cases.append((e["k"], m))
+            if self.after_points and e["op"] not in ("open-w", "open-a"):
+                cases.append((e["k"], "after"))      # right after the call has returned (for an open = "trunc")
         return cases
 
 
@@ -792,7 +816,13 @@ def enumerate_segment(ctx, seg, work, tag, depth_cb=None, limit_events=None, mod
                 st = seg.steps[e["step"]]
                 if st.get("align") and k not in st.get("unordered", ()):
                     j = st["align"][k]
-                    c["mpoint"] = (e["step"], j if mode == "before" else j + 1, mode == "half")
+                    if mode == "half":
+                        # the write that belongs to this open (for a rename-while-open it comes after the rename)
+                        jw = next((x for x in range(j + 1, len(st["effects"]))
+                                   if st["effects"][x].split(":")[0] in ("write", "rwrite", "dataappend")), j + 1)
+                        c["mpoint"] = (e["step"], jw, True)
+                    else:
+                        c["mpoint"] = (e["step"], j if mode == "before" else j + 1, False)
             if "mpoint" in c:
                 si, j, half = c["mpoint"]
                 st = seg.steps[si]
@@ -890,7 +920,13 @@ def judge(ctx, seg, cases, hist_id):
             ctx.hit("no-record-yet")
             continue
         if outcome != "starts":
-            if in_trunc:
+            if in_trunc and (e["op"] == "move" or seg.variant == "renamedOpen"):
+                ctx.fail("C08:restart-toml-renamed-before-flush",
+                         f"crash {c['mode']} effect {c['k']} ({e['op']} {e['path']} -> {e.get('dest')}) of a {kind} step: the temp "
+                         f"file was renamed to restart.toml while still open (content still in the write buffer "
+                         f"{e.get('open_handles')}); restart.toml is {'empty' if tr == 'empty' else 'cut'}; the restart "
+                         f"{outcome}: {res.get('error')}", replay)
+            elif in_trunc:
                 ctx.fail(SIG_TRUNC,
                          f"crash {c['mode']} effect {c['k']} ({e['op']} {e['path']}) of a {kind} step leaves restart.toml "
                          f"{'empty' if tr == 'empty' else 'half written'}; the restart {outcome}: {res.get('error')}", replay)
@@ -1026,6 +1062,7 @@ def second_life(ctx, seg, c, work, hist_id, n2, limit2):
         return
     seg2 = Segment(ctx, work, seg.spec, seg.reg, start_tree=tree, pid=seg.pid + 1111, label=f"B{n2}")
     seg2.chain = seg.chain + [{"k": c["k"], "mode": c["mode"]}]
+    seg2.after_points = not ctx.quick
     seg2.start_rec = c["tree_restart"] if isinstance(c["tree_restart"], dict) else None
     if not seg2.reference():
         return   # already reported by judge (continuation raised / restart failed)
